@@ -21,6 +21,13 @@ pub enum Op {
 #[derive(Clone, Debug, Serialize, Deserialize)]
 pub struct Case {
 	pub ops: Vec<Op>,
+	/// false: SKIP_POW with free per-block difficulty (a fork can win without being longer)
+	#[serde(default = "yes")]
+	pub real: bool,
+}
+
+fn yes() -> bool {
+	true
 }
 
 /// transactions rich in time-locked elements
@@ -61,8 +68,9 @@ pub fn case_strategy(max_segs: usize) -> impl Strategy<Value = Case> {
 		}),
 		1 => Just(vec![Op::Reopen]),
 	];
-	prop::collection::vec(seg, 3..=max_segs).prop_map(|segs| Case {
+	(prop::collection::vec(seg, 3..=max_segs), prop::bool::weighted(0.7)).prop_map(|(segs, real)| Case {
 		ops: segs.into_iter().flatten().take(26).collect(),
+		real,
 	})
 }
 
@@ -84,7 +92,8 @@ pub fn run_case(ctx: &Ctx, case: &Case, counting: bool) -> PResult {
 	init_thread();
 	let ev = &ctx.ev;
 	let mut cb = ChainBox::open(&ctx.scratch_dir("c13")).map_err(|e| Fail::new("init-fresh", e))?;
-	let mut w = World::new(&cb.genesis, true);
+	let mut w = World::new(&cb.genesis, case.real);
+	let pm = if case.real { PowMode::Real } else { PowMode::Skip(1) };
 	let mut head = 0usize;
 	let mut tags_seen: BTreeSet<String> = BTreeSet::new();
 	let mut nrd_index_from_header_fork = false;
@@ -129,8 +138,8 @@ pub fn run_case(ctx: &Ctx, case: &Case, counting: bool) -> PResult {
 					}
 				};
 				let on_fork = built.parent != head;
-				header_first(cb.c(), &built.block, raw.hdr, built.verdict.is_ok(), PowMode::Real)?;
-				let res = cb.c().process_block(built.block.clone(), opts(PowMode::Real));
+				header_first(cb.c(), &built.block, raw.hdr, built.verdict.is_ok(), pm)?;
+				let res = cb.c().process_block(built.block.clone(), opts(pm));
 				let ctx_tag = if on_fork { "fork" } else { "main" };
 				if std::env::var("GV_DEBUG").is_ok() {
 					let hh = cb.c().header_head().unwrap();
